@@ -12,7 +12,10 @@ class H(Harness):
     ANCHOR_FILES = ['epydemic/synchronousdynamics.py', 'epydemic/stochasticdynamics.py', 'epydemic/sir_model_variable_infection.py', 'epydemic/process.py', 'epydemic/drawset.py']
     TIE_IMPORT = kcommon.TIE_IMPORT
     CHECK_FN = kcommon.CHECK_FN
-    VO_TARGETS = ['Properties/C05.vo', 'Tie/Kernel.vo']
+    # whole runs of the shipped models go through their own tie (marks left to C08)
+    TIES = {'shipped': ('From EpyV Require Import Model.Kernel Model.KernelDyn Model.Loci Model.Compart Model.CompartV Model.CompartVI '
+                        'Tie.Compart Tie.CompartV Tie.CompartVI Tie.CompartAll.\nOpen Scope Q_scope.', 'EpyV.Tie.CompartAll.check_all_nomarks')}
+    VO_TARGETS = ['Properties/C05.vo', 'Tie/CompartAll.vo']
     QUICK_N = 500
     THOROUGH_N = 5000
     RULE = ('random ScriptProcess tables whose handlers discard/add elements of loci (incl. the element itself and competitors), posted events '
@@ -46,7 +49,10 @@ class H(Harness):
 
     def to_coq(self, case, obs):
         if 'model' in case:
-            return None
+            # whole runs of the shipped models, SIR_VariableInfection's state-dependent event table included
+            from harness import compart_coq
+            t = compart_coq.to_coq_all(case, obs)
+            return None if t is None else ('shipped', t)
         return kcommon.to_coq(case, obs)
 
     def direct(self, case, obs):
